@@ -124,7 +124,11 @@ def sameWorkspace(link, sharePath):
                 dst = f.read(0x10000)
         else:
             return False
-        return os.path.samefile(dst, sharePath)
+        try:
+            return os.path.samefile(dst, sharePath)
+        except FileNotFoundError:
+            # A dangling link does not refer to any existing package.
+            return False
     except OSError as e:
         raise BuildError("Error inspecting workspace: " + str(e))
 
